@@ -58,6 +58,8 @@ type Opts struct {
 	Txids bool
 	// Twin keeps the pre-restart repository alive after a reload and feeds both the same submissions.
 	Twin bool
+	// Backlog: one run in Backlog is the subscriber backlog scenario of C07 (0 = never).
+	Backlog int
 	// LargeEvery: one run in LargeEvery uses long chain mode (0 = never).
 	LargeEvery int
 	// ConfigInvalid puts one hash into Config.InvalidHeaderHashes (C17: config supplied markings).
